@@ -45,7 +45,7 @@ OUTER:
 			// So, we notify/awake the merger here so that it can feed
 			// stackDirtyMid down to the persister as stackDirtyBase.
 			if m.waitDirtyIncomingCh != nil && // Merger is indeed asleep.
-				(m.stackDirtyMid != nil && len(m.stackDirtyMid.a) > 0) &&
+				m.stackDirtyMid != nil &&
 				(m.stackDirtyTop == nil || len(m.stackDirtyTop.a) <= 0) {
 				m.NotifyMerger("from-persister", false)
 			}
